@@ -23,6 +23,9 @@ pub struct Bounds {
     pub seeds: u64, // executions per (state, op) for the random policy
     #[serde(default)]
     pub max_states: usize,
+    /// stop expanding a configuration after this many logged transitions (0 = no budget)
+    #[serde(default)]
+    pub max_edges: usize,
 }
 fn one() -> u64 {
     1
@@ -76,6 +79,10 @@ fn explore_cfg(cfg: &Cfg, b: &Bounds, w: &mut TraceWriter, cfg_id: usize) -> Sta
     };
     let nseeds = if cfg.policy == "random" { b.seeds.max(1) } else { 1 };
     while let Some((st, ver, uid)) = queue.pop_front() {
+        if b.max_edges != 0 && edges >= b.max_edges {
+            truncated = true;
+            break;
+        }
         // state constraint (same as the model's): hit counters bounded
         if st.store.values().any(|e| e.hits > b.max_hits) {
             continue;
